@@ -285,12 +285,59 @@ def build_query(ob, str_axioms):
     return (full, inst, complete)
 
 
-def decide(ob, str_axioms, timeout_ms=20000, use_cvc5=True, name=None):
+def _solve_api(fs, timeout_ms):
+    """solve a list of formulas with the in-process API (no SMT-LIB round trip)"""
+    s = z3.Solver()
+    s.set("timeout", timeout_ms)
+    for f in fs:
+        s.add(f)
+    t0 = time.time()
+    r = s.check()
+    dt = time.time() - t0
+    if r == z3.unsat:
+        return ("unsat", dt, None), s
+    if r == z3.sat:
+        m = s.model()
+        vals = {}
+        for d in m.decls():
+            try:
+                vals[d.name()] = str(m[d])[:2000]
+            except Exception:
+                pass
+        return ("sat", dt, vals), s
+    return ("unknown", dt, s.reason_unknown()), s
+
+
+class _Lazy:
+    def __init__(self, fn):
+        self.fn = fn
+        self.v = None
+
+    def get(self):
+        if self.v is None:
+            self.v = self.fn()
+        return self.v
+
+
+def decide(ob, str_axioms, timeout_ms=20000, use_cvc5=True, name=None, want_smt2=False):
     """-> (name, status, backend, seconds, model, tried, smt2_full)"""
     name = name or ob.name
     tried = []
-    full = build_full(ob, str_axioms)
-    r = _solve_z3(full, min(4000, timeout_ms))
+    # cheapest attempt first: all hypotheses, but without the rounding / grid axiom instances (most obligations are
+    # structural and do not need them)
+    fs0 = list(ob.hyps) + [_neg(ob.goal)]
+    lite_f = fs0 + list(str_axioms) + prelude.instantiate(fs0, lite=True)
+    rl0, solver_l = _solve_api(lite_f, min(3000, timeout_ms))
+    if rl0[0] == "unsat":
+        tried.append(("z3", "unsat", rl0[1]))
+        return (name, "unsat", "z3", rl0[1], None, tried, solver_l.to_smt2() if want_smt2 else "")
+    allf = _all_formulas(ob, str_axioms)
+    r0, solver0 = _solve_api(allf, min(4000, timeout_ms))
+    if r0[0] == "unsat":
+        tried.append(("z3", "unsat", r0[1]))
+        return (name, "unsat", "z3", r0[1], None, tried, solver0.to_smt2() if want_smt2 else "")
+    full = solver0.to_smt2()
+    r = r0
     tried.append(("z3", r[0], r[1] if isinstance(r[1], float) else 0.0))
     if r[0] == "unsat":
         return (name, "unsat", "z3", r[1], None, tried, full)
@@ -331,16 +378,28 @@ def decide(ob, str_axioms, timeout_ms=20000, use_cvc5=True, name=None):
         tried.append(("cvc5", r2[0], r2[1]))
         if r2[0] == "unsat":
             return (name, "unsat", "cvc5", r2[1], None, tried, full)
+    if rq[0] == "unknown":
+        # z3 is sensitive to the random seed on the large instantiated queries: two more attempts
+        for seed in (7, 23):
+            rq2 = _solve_z3(inst, timeout_ms, seed=seed)
+            tried.append(("z3-inst(seed %d)" % seed, rq2[0], rq2[1] if isinstance(rq2[1], float) else 0.0))
+            if rq2[0] == "unsat":
+                return (name, "unsat", "z3-inst", rq2[1], None, tried, full)
+            if rq2[0] == "sat":
+                rq = rq2
+                break
     if rq[0] == "sat":
         # instantiated query has a model, the full query is undecided: a candidate counter-model
         return (name, "sat", "z3-inst" if complete else "z3-inst(candidate)", rq[1], rq[2], tried, full)
     return (name, "unknown", "z3", r[1] if isinstance(r[1], float) else 0.0, r[2] if r[0] == "unknown" else "full query sat, instantiated query undecided", tried, full)
 
 
-def _solve_z3(smt2, timeout_ms):
+def _solve_z3(smt2, timeout_ms, seed=0):
     ctx = z3.Context()
     s = z3.Solver(ctx=ctx)
     s.set("timeout", timeout_ms)
+    if seed:
+        s.set("random_seed", seed)
     try:
         s.from_string(smt2)
     except z3.Z3Exception as e:
